@@ -365,7 +365,7 @@ def mult_safety_groups(tag):
 
 
 def c11_groups(tier, tag='C11'):
-    gs = poly_cw_groups(tag) + poly_mono_groups(tag) + mult_safety_groups(tag)
+    gs = poly_cw_groups(tag) + poly_mono_groups(tag) + mult_safety_groups(tag) + fftmul_groups(tag)
     gs.append(Group(tag + '.lemma.monomial', 'lemmas.c', 'h_lemma_monomial', backend='cadical', timeout=1500,
                     defines={'LEMMA_NMAX': 65536 if tier == 'quick' else (1 << 20)}))
     for N in ([1, 2, 4, 8, 16] if tier == 'quick' else [1, 2, 4, 8, 16, 32, 64]):
@@ -522,6 +522,7 @@ def keyset_groups(tag):
 def c16_groups(tier):
     gs = alloc_groups('C16', tier)
     gs += keyset_groups('C16')
+    gs += fftmul_groups('C16')                          # FFT-based ring products: temporaries released
     gs += c18_groups(tier, 'C16')                     # binary readers: every destination writable for the byte count requested
     gs += [g for g in c17_groups(tier, 'C16') if 'write+read' in g.name or 'key+sample' in g.name]     # binary writers: every source readable for the byte count
     gs += boot_groups('C16')
@@ -779,6 +780,12 @@ def text_format_scan(group):
              % (f, '/'.join(sorted(parsers & {'stold', 'stod', 'strtod', 'strtold', 'atof'})), why))]
 
 
+def fftmul_groups(tag):
+    PL = 'polynomials.cpp'
+    return [Group(tag + '.fft_products.wiring', 'c09_extprod.c', 'h_fftmul', extract=[(PL, 'torusPolynomialMultFFT'), (PL, 'torusPolynomialAddMulRFFT'), (PL, 'torusPolynomialSubMulRFFT')],
+                  defines={'H_FFTMUL': None}, cbmc=['--memory-leak-check'])]
+
+
 def wrapper_groups(tag):
     import wrappers as W
     try:
@@ -910,6 +917,7 @@ PROPS = {
             'Karatsuba (plain / accumulate / subtract): bounded stand-in at N = 16 on symbolic basis pairs (X^i, c*X^j); the extension to all inputs by bilinearity of the routine is not machine-checked; fully symbolic Karatsuba is out of reach of every installed solver',
             'monomial algebra lemma: N <= 2^16 (quick) / 2^20 (thorough)',
             'subtract-and-multiply coefficient-wise variants: multiplier constants enumerated (see C14)',
+            'FFT-based products of polynomials.cpp (torusPolynomialMultFFT / AddMulRFFT / SubMulRFFT): the wiring is proved (operands, order, = / += / -=, temporaries); the transforms and the Lagrange-domain product are monitors, their numerical content is C10 (not applicable)',
         ],
         'trusted': [],
     },
